@@ -958,6 +958,20 @@ theorem C13_class_associator_characterisation {S : NsStore} {cn : Name} {f : AFi
     rw [hrl] at hrl'; cases hrl'
     exact ⟨c, hc, q, hq, hqn, hqr, assocPropMatches_iff.mpr ⟨h1, h2, h3⟩, hskip⟩
 
+/-- **Names = full, converse, with the dangling-end hypothesis as a checkable repository predicate**: in a
+    repository where every stored end can be fetched, Associators succeeds whenever AssociatorNames does. -/
+theorem C13_names_full_converse_of_ends_exist {sv : Server} {ns : Name} {x : Path} {f : AFilter} {l : List Path}
+    (hends : EndsExist sv) (h : associatorNamesI sv ns x f = .ok l) :
+    ∃ is, associatorsI sv ns x f = .ok is := by
+  apply C13_names_are_paths_of_full_associators_converse_partial h
+  intro S hS l0 hl0 y hy
+  obtain ⟨a, ha, _, q, hq, hoe⟩ := (mem_assocInstNames hl0 y).mp hy
+  obtain ⟨hqr, hqv, _⟩ := otherEnd_iff.mp hoe
+  have hmem : y ∈ ends a := by
+    simp only [ends, List.mem_filterMap]
+    exact ⟨q, hq, by simp [hqr, hqv]⟩
+  exact fetchEnd_of_endOk (hends S (findNs_mem hS).1 a ha y hmem)
+
 /-! ## 10. non-vacuity and negation witnesses (closed instances, checked by evaluation) -/
 
 section Witness
@@ -1141,6 +1155,8 @@ theorem C13_write_discipline_fails_without_home :
 example : Ranked classes (fun n => if n = ['n'] then 0 else if n = ['m'] then 1 else if n = ['l'] then 2 else 3) := by
   constructor <;> decide
 example : dedupPaths [pa 1, { pa 1 with cls := ['n'] }, pa 2, pa 1] = [pa 1, pa 2] := by decide
+
+example : EndsExist svGood := by unfold EndsExist; decide
 
 end Witness
 
